@@ -484,10 +484,22 @@ Qed.
 
 Definition empty_peer : peer := {| k_prev := None; k_cur := None; k_next := None |}.
 
+(* tun.Write failing: same state evolution as Dgrams, writes stripped *)
+Definition strip (r : res) : res := {| r_write := None; r_rx := r_rx r |}.
+
+Lemma tunfail_fst st l : fst (step st (DgramsTunFail l)) = fst (run recv1 st l).
+Proof. cbn [step]. destruct (run recv1 st l). reflexivity. Qed.
+
+Lemma tunfail_snd st l : snd (step st (DgramsTunFail l)) = map strip (snd (run recv1 st l)).
+Proof. cbn [step]. destruct (run recv1 st l). reflexivity. Qed.
+
 Theorem inv_preserved : forall key ctr st ev,
   Inv key ctr st -> fresh_keys key [ev] -> Inv key ctr (fst (step st ev)).
 Proof.
-  intros key ctr st ev HI Hfr. destruct ev as [p idx k0|p idx k0| |p|p ns|l]; cbn [step].
+  intros key ctr st ev HI Hfr. destruct ev as [p idx k0|p idx k0| |p|p ns|l|l];
+    [| | | | | |rewrite tunfail_fst; change (fst (run recv1 st l)) with (final recv1 st l);
+               apply (final_inv recv1 (Inv key ctr)); [intros s o Hs; apply inv_recv1; exact Hs|exact HI]];
+    cbn [step].
   - assert (Hne : k0 <> key) by (apply (Hfr p idx k0); left; left; reflexivity).
     destruct (is_gone st p); cbn [fst]; [exact HI|].
     unfold Inv. cbn [s_peers].
@@ -628,7 +640,9 @@ Lemma all_empty_step st ev :
   AllEmpty st -> (forall p i k, ev <> Handshake p i k /\ ev <> HandshakeUnconf p i k) ->
   AllEmpty (fst (step st ev)).
 Proof.
-  intros HE Hne. destruct ev as [p idx k0|p idx k0| |p|p ns|l].
+  intros HE Hne. destruct ev as [p idx k0|p idx k0| |p|p ns|l|l];
+    [| | | | | |rewrite tunfail_fst; change (fst (run recv1 st l)) with (final recv1 st l);
+               apply (final_inv recv1 AllEmpty); [intros s o Hs; rewrite (recv1_all_empty s o Hs); exact Hs|exact HE]].
   - exfalso. apply (proj1 (Hne p idx k0)). reflexivity.
   - exfalso. apply (proj2 (Hne p idx k0)). reflexivity.
   - apply restart_all_empty.
@@ -795,7 +809,11 @@ Theorem gone_inv_step : forall p st ev,
   forall r i w, In r (snd (step st ev)) -> r_write r = Some (i, w) -> i <> p.
 Proof.
   intros p st ev HG.
-  destruct ev as [p0 idx k0|p0 idx k0| |p0|p0 ns|l]; cbn [step];
+  destruct ev as [p0 idx k0|p0 idx k0| |p0|p0 ns|l|l];
+    [| | | | | |rewrite tunfail_fst, tunfail_snd; split; [apply gone_run; exact HG|];
+               intros r i w Hin Hw; apply in_map_iff in Hin; destruct Hin as (r0 & E & _);
+               subst r; discriminate];
+    cbn [step];
     try (apply gone_run; exact HG); destruct HG as [Hg HE].
   - destruct (is_gone st p0) eqn:Hg0; cbn [fst snd]; (split; [|intros r i w []]); [split; assumption|].
     assert (Hne : N.to_nat p0 <> N.to_nat p).
@@ -847,4 +865,16 @@ Theorem removed_peer_never_written : forall evs st p,
   forall rs r i w, In rs (outs step st evs) -> In r rs -> r_write r = Some (i, w) -> i <> p.
 Proof.
   intros evs st p Hg HE. apply (gone_trace p evs st). split; [exact Hg|exact HE].
+Qed.
+
+(* ------------------------------------------------------------------ TUN write failure *)
+
+Theorem tun_failure_loses_the_step : forall st l,
+  fst (step st (DgramsTunFail l)) = fst (step st (Dgrams l)) /\
+  (forall r, In r (snd (step st (DgramsTunFail l))) -> r_write r = None) /\
+  map r_rx (snd (step st (DgramsTunFail l))) = map r_rx (snd (step st (Dgrams l))).
+Proof.
+  intros st l. rewrite tunfail_fst, tunfail_snd. cbn [step]. split; [reflexivity|]. split.
+  - intros r Hin. apply in_map_iff in Hin. destruct Hin as (r0 & E & _). subst r. reflexivity.
+  - rewrite map_map. apply map_ext. intros r. reflexivity.
 Qed.
